@@ -397,6 +397,15 @@ import regstream
 def run_c19(ctx):
     n = _sizes(ctx['tier'], 6000, 300000)
     a = streams2.run_tasks(regstream.reg_task, ctx['seed'] + 1900, n, ctx['nproc'], max(300, n // (ctx['nproc'] * 2)))
+    # bounded-exhaustive: EVERY call sequence up to length 2 (quick) / 3 (thorough) over the alphabet of the quantifier
+    hs = regstream.enum_histories(2 if ctx['tier'] == 'quick' else 3)
+    per = max(50, len(hs) // (ctx['nproc'] * 2) + 1)
+    e = streams2.run_parallel_tasks(regstream.reg_task, [(ctx['seed'] + 1950 + k, hs[i:i + per]) for k, i in enumerate(range(0, len(hs), per))], ctx['nproc'])
+    a['n'] += e['n']; a['distinct'] += e['distinct']; a['violations'] += e['violations']; a['disagreements'] += e['disagreements']
+    a['oracle_calls'] += e['oracle_calls']
+    for k, v in e['stats'].items():
+        a['stats']['exhaustive-' + k] = v
+    a['stats']['exhaustive-histories(all sequences up to length %d)' % (2 if ctx['tier'] == 'quick' else 3)] = len(hs)
     b = streams2.run_tasks(regstream.indep_task, ctx['seed'] + 1901, n // 2, ctx['nproc'], max(300, n // (ctx['nproc'] * 4)))
     tot = dict(a)
     tot['n'] += b['n']; tot['distinct'] += b['distinct']; tot['violations'] = a['violations'] + b['violations']
@@ -504,4 +513,4 @@ def _probe_c05(fid):
 
 
 FINDING_PROBES = {'D13': _probe_D13, 'D14': _probe_D14, 'D7': _probe_D7, 'D11': _probe_D11, 'D15': _probe_D15,
-                  'D18': _probe_c05('D18'), 'D19': _probe_c05('D19')}
+                  'D18': _probe_c05('D18'), 'D19': _probe_c05('D19'), 'D23': _probe_c05('D23')}
